@@ -190,7 +190,13 @@ func (p *Parser) parseComment() ast.Node {
 	if isBlockComment {
 		if !strings.HasSuffix(p.curToken.Literal(), "*/") {
 			log.LogVf("parseComment: block comment not closed: %s", p.curToken.DebugString())
-			p.continuationNeeded = true
+			if p.l.EOLEOF() == token.EOLT {
+				p.continuationNeeded = true // line mode: the rest may come with the next line.
+			} else {
+				// whole input mode: there is no more input to wait for.
+				_, lineNum := p.ErrorLine(false)
+				p.errors = append(p.errors, fmt.Sprintf("%d: block comment not closed", lineNum))
+			}
 			return nil
 		}
 	} else {
